@@ -44,15 +44,29 @@ func mkBytes(n int) []byte {
 	return b
 }
 
+// mkUTF8 is the first n bytes of a repeating mix of 1-, 2-, 3- and 4-byte runes (a cut may fall inside a rune).
+func mkUTF8(n int) []byte {
+	const unit = "a\u00e9\u4e16\U0001F600b"
+	b := make([]byte, n)
+	for i := range b {
+		b[i] = unit[i%len(unit)]
+	}
+	return b
+}
+
 func runDirect(enc *json.Encoder, n int, L int64) {
-	d := direct{K: "direct", N: n, L: L}
+	runDirectKind(enc, "direct", mkBytes(n), n, L)
+	runDirectKind(enc, "direct2", mkUTF8(n), n, L)
+}
+
+func runDirectKind(enc *json.Encoder, kind string, s []byte, n int, L int64) {
+	d := direct{K: kind, N: n, L: L}
 	func() {
 		defer func() {
 			if r := recover(); r != nil {
 				d.Panic = fmt.Sprint(r)
 			}
 		}()
-		s := mkBytes(n)
 		s = s[:n:n]
 		out := ruleguard.VerifTruncateText(s, int(L))
 		d.Res = make([]int, len(out))
